@@ -313,6 +313,11 @@ def run(ctx):
         check_nonfinite(ctx, S)
     check_budget(ctx, sites)
     check_wrapper(ctx)
+    ctx.rule("C14-ROWS", "the batch readers return exactly the requested rows in the requested order (shared with C12-COL): the windows of the row map evaluate, and the final "
+                         "selection returns, the rows the accumulated likelihoods belong to.")
+    from .C12 import _reader_checks
+    _reader_checks(ctx, "C14-ROWS", "read_batch_slice", "slice")
+    _reader_checks(ctx, "C14-ROWS", "read_batch_idx", "idx")
     ctx.floor("C14-RAISE", ctx.count("C14-RAISE"), 4)
     ctx.floor("C14-CHAIN", ctx.count("C14-CHAIN"), 16)
     ctx.assume("Generator.choice(replace=False) returns distinct rows; np.arange(0, n, 1) is the identity map")
